@@ -7,6 +7,8 @@ execute: the same _imeth_* / _meth_InvokeMethod adapter of a FakedWBEMConnection
 encode: result tuples -> IMETHODRESPONSE / METHODRESPONSE with pywbem._cim_xml and the DSP0200
         return-element table below; CIMError -> <ERROR CODE=...>
 """
+import copy
+
 from pywbem import (CIMInstance, CIMInstanceName, CIMClass, CIMClassName, CIMQualifierDeclaration,
                     CIMError, CIMParameter, CIMDateTime, cimtype)
 from pywbem import _cim_xml as X
@@ -235,7 +237,8 @@ class Facade:
         from mc.transport import request_body, OK_HEADERS
         body = request_body(request)
         kind, name, target, params = decode_request(body)
-        self.log.append((kind, name, target, params))
+        # (a copy: the mock's adapters complete the decoded objects in place, e.g. set the namespace)
+        self.log.append((kind, name, copy.deepcopy(target), copy.deepcopy(params)))
         try:
             if kind == 'imethod':
                 res = getattr(self.mock, '_imeth_' + name)(target, **params)
